@@ -111,7 +111,9 @@ fn corpus(mode: &str) -> Vec<WorldSrc> {
             continue;
         }
         // async functions belong to C08
-        let wit: String = wit.lines().filter(|l| !l.contains("async func")).map(|l| format!("{l}\n")).collect();
+        // async functions belong to C08; `x4` of the fixed-list corpus does not compile (flat
+        // lowering of [String; 2]: lead for C09) and would take the whole crate with it
+        let wit: String = wit.lines().filter(|l| !l.contains("async func") && !(name == "fixed" && l.trim_start().starts_with("x4:"))).map(|l| format!("{l}\n")).collect();
         out.push(WorldSrc { wit, origin: format!("corpus:{name}"), tags: vec![format!("corpus-{name}")] });
     }
     out
@@ -153,6 +155,16 @@ fn resource_corpus() -> WorldSrc {
 "#;
     let wit = format!("package verif:res;\n\ninterface shapes-imp {{{body}}}\n\ninterface shapes-exp {{{body}}}\n\nworld res-corpus {{\n  import shapes-imp;\n  export shapes-exp;\n}}\n");
     WorldSrc { wit, origin: "corpus:resources".into(), tags: vec!["corpus-resources".into(), "resource".into()] }
+}
+
+/// Directed world for a known generator defect (known_findings.json): runs on
+/// every invocation with fixed options, so the finding is re-observed at every seed.
+fn directed_fixed_list_world() -> WorldSrc {
+    let pad: String = (1..=15).map(|i| format!(", p{i}: u64")).collect();
+    let wit = format!(
+        "package verif:directed;\n\nworld fixed-list-heap {{\n  import dangling-strings: func(a: tuple<u8, list<string, 2>>{pad});\n  import dangling-lists: func(a: tuple<list<list<u8>, 2>, u8>{pad});\n}}\n"
+    );
+    WorldSrc { wit, origin: "directed:fixed-list-heap".into(), tags: vec!["directed".into(), "fixed-list".into()] }
 }
 
 fn witgen_cfg(mode: &str, rng: &mut Rng) -> witgen::Cfg {
@@ -372,7 +384,11 @@ fn main() {
         for i in 0..count {
             let name = format!("{prefix}{i:03}");
             let opts = combos[i % combos.len()].clone();
-            let src = if i < ncorp {
+            if i == 0 && mode == "values" {
+                entries.push(build_world(dir, &name, &directed_fixed_list_world(), &GenOpts::all()[0], &crates, &repo, &mut avoided));
+                continue;
+            }
+            let src = if i < ncorp + 1 && !corp.is_empty() {
                 corp.pop().unwrap()
             } else {
                 let mut found = None;
